@@ -1,8 +1,7 @@
-// Findings of unit fold_exec (F13, F14): end-to-end regression tests through air::execute_air with the repository's native runner.
-// Both are REPAIRED in /repo (F14: 4f12881, F13: dc04e6f): the tests FAILED on the tree before those commits (F13 by a panic inside
-// the interpreter, F14 by a wrong canon) and PASS after them. (A residual of F14 that is NOT repaired, F14b, is the last test of
-// this file; its name starts with `pending_instr_` and it fails on the current tree.) Run with tools/e2e_replay.sh (filter `verif_instr`), i.e. appended to
-// air/tests/test_module/negative_tests/uncatchable_trace_related.rs in a scratch copy and
+// Findings of unit fold_exec (F13, F14, F14b): end-to-end regression tests through air::execute_air with the repository's native runner.
+// All are REPAIRED in /repo (F14: 4f12881, F13: dc04e6f, F14b: 181c0bf): the tests FAILED on the tree before those commits (F13 by
+// a panic inside the interpreter, F14 and F14b by a wrong canon) and PASS after them. Run with tools/e2e_replay.sh (filter
+// `verif_instr`), i.e. appended to air/tests/test_module/negative_tests/uncatchable_trace_related.rs in a scratch copy and
 //   CARGO_TARGET_DIR=/var/tmp/aquavm-e2e-target cargo test -p aquavm-air --features air-test-utils/test_with_native_code --offline \
 //       --test test_module verif_instr -- --test-threads 1 --nocapture
 //
@@ -111,15 +110,15 @@ async fn verif_instr_f14_second_recursive_fold_visits_appended_value() {
     assert!(!after.contains("raw: \"[1]\""), "no canon holding only [1]");
 }
 
-// F14b (C13, residual of F14, NOT repaired; the name starts with `pending_instr_`, so the default filter `verif_` skips it; it FAILS
-//   on the current tree). What is left of the precondition of lemma fold_exec:cursor_visits_each_value_once -- "`new_values` has no
-//   empty generation when the fold starts" -- is false for a fold that starts INSIDE an iteration of another fold over the same
-//   stream while that fold's open generation is still empty: the inner fold's met_fold_start takes the raw generation count, which
-//   includes the outer fold's empty open generation, and misses the values appended during its own first round. Here the inner fold
-//   of the first outer iteration appends 2 and visits only [1] (the canon handed to the service is [1], expected [1,2]); the outer
-//   fold still visits 2 in its next round, where the inner fold sees [1,2].
+// F14b (C13, residual of F14; repaired by 181c0bf: ValuesMatrix::slice_iter skips `cursor` generations BEFORE it drops the empty
+//   ones). Before it, a fold that starts INSIDE an iteration of another fold over the same stream while that fold's open generation
+//   is still empty took a cursor (raw generation count, which includes that empty generation) that overshot among the non-empty
+//   generations, and missed the values appended during its own first round: here the inner fold of the first outer iteration appends
+//   2 and visited only [1] (the canon handed to the service was [1]). Now it visits [1,2]. Verus: with the old cursor model lemma
+//   fold_exec:cursor_visits_each_value_once needed "`new_values` has no empty generation when the fold starts"; with the new one
+//   (`non_empty(view.skip(cursor))`) it holds with no requirement on empty generations.
 #[tokio::test]
-async fn pending_instr_f14b_nested_fold_over_the_same_stream_misses_appended_value() {
+async fn verif_instr_f14b_nested_fold_over_the_same_stream_visits_appended_value() {
     let vm_peer_id = "vm_peer_id";
     let mut vm = create_avm(echo_call_service(), vm_peer_id).await;
     let script = format!(
@@ -157,7 +156,7 @@ async fn pending_instr_f14b_nested_fold_over_the_same_stream_misses_appended_val
     let values = format!("{:?}", data.cid_info.value_store);
     println!("VERIF value_store = {values}");
     assert_eq!(result.ret_code, 0);
-    // after the inner fold of the first outer iteration the visited values must be [1,2]; they are [1]
+    // after the inner fold of the first outer iteration the visited values are [1,2] (they were [1] before the fix)
     assert!(values.contains("raw: \"[1,2]\""), "the inner fold must visit the value it appended in its first round");
     assert!(!values.contains("raw: \"[1]\""), "no canon holding only [1]");
 }
